@@ -31,6 +31,14 @@ Sub-oracles (K = 10; rtol, atol are the tolerances given to the solver)
   nocut          no cut inside the window: fastestDeflag() == vJ and slowestDeton() == vJ
 Both WallGo.Hydrodynamics (all EOS families) and WallGo.HydrodynamicsTemplateModel (template-form EOS; it has
 no fastestDeflag/slowestDeton) are checked.  WallGoError / a tuple of None are outcomes (labels).
+
+A strict inequality (v+ < v-, T+ > Tn, v- < v+) that the EXACT solution of the reference violates itself is only
+labelled (exact-solution-violates:*): e.g. alpha_n ~ 1e-4 with different sound speeds has detonations with v- > v+.
+Discards (counted): cut:ill-conditioned (the tolerances resolve the velocity at which the constructed range end is
+reached worse than 0.005: weak transitions x slow walls, all slower walls within rtol of the cut), cut:non-monotone
+(an earlier crossing exists in the reference too), reference:* (the reference failed).
+Confirmed defects are steered around by the AVOID switches below (labels avoided:*; the known_*.json replays carry
+"force": true and are always evaluated; VERIF_NO_AVOID=1 switches the steering off, e.g. on a patched tree).
 """
 from __future__ import annotations
 
